@@ -62,7 +62,7 @@ type bindGen struct {
 }
 
 // struct types that Prepare rejects (or that are odd): used now and then so that every statement form meets them
-var badStructs = []string{"NoTags", "Unexported", "BadFlag", "BadEmpty", "BadQuote", "BadChar", "BadDigit", "DupTag", "DupEmbed", "Rec", "RecA", "RecRoot",
+var badStructs = []string{"NoTags", "Unexported", "BadFlag", "BadEmpty", "BadQuote", "BadChar", "BadDigit", "DupTag", "DupEmbed", "Rec", "RecA", "RecRoot", "Page", "Page",
 	"TagLoneQuote", "TagLoneDQuote", "TagLoneQuoteFlag", "TagEmptyQuoted", "TagEmptyDQuoted", "TagQuoteInside", "TagSpace", "TagTrailingComma", "TagTwoFlags", "TagDash", "TagStar", "TagUnderscore", "TagMixedQuotes"}
 
 func (g *bindGen) structName() string {
@@ -80,7 +80,7 @@ func (g *bindGen) tagOf(name string) string {
 	return g.r.pick(tags)
 }
 
-var mapKeys = []string{"k1", "k2", "name", "id", "x", "\"q k\"", "añb", "7"}
+var mapKeys = []string{"k1", "k2", "name", "id", "x", "\"q k\"", "añb", "7", "'it''s'", "Id", "NAME"}
 
 type stmtPlan struct {
 	parts []string
@@ -200,6 +200,15 @@ func (g *bindGen) insertExpr(p *stmtPlan) string {
 		if r.chance(1, 10) {
 			cols = append(cols, "spare")
 		}
+		// a column that differs from a tag / key only by letter case is another column
+		if r.chance(1, 8) {
+			i := r.intn(len(cols))
+			if r.chance(1, 2) {
+				cols[i] = strings.ToUpper(cols[i])
+			} else {
+				cols[i] = strings.ToUpper(cols[i][:1]) + cols[i][1:]
+			}
+		}
 		// shuffle sources
 		for i := len(srcs) - 1; i > 0; i-- {
 			j := r.intn(i + 1)
@@ -223,7 +232,7 @@ func (g *bindGen) insertExpr(p *stmtPlan) string {
 					break
 				}
 				vals = append(vals, r.pick([]string{"'lit'", "1", "NULL", "f(1, 'a,b')", "(1+2)", "'it''s'", "/* c */ 2",
-					"'100% off'", "'%d %s %%'", "/* 50%d */ 1", "'%!v(MISSING)'", "a % 2",
+					"'100% off'", "'%d %s %%'", "'a\x00b'", "/* \x00 */ 1", "/* 50%d */ 1", "'%!v(MISSING)'", "a % 2",
 					"7 -- seven\n", "'x' -- k\r\n ", "1 ", "2\t", "3 /* three */ ", "now( )  "}))
 			case 1:
 				t := r.pick(goodMaps)
@@ -370,7 +379,17 @@ func (g *bindGen) argFor(name string, allowBulk bool) any {
 					kv := reflect.ValueOf(k).Convert(t.Key())
 					ev := reflect.New(t.Elem()).Elem()
 					g.f.fill(ev, 0)
+					// a value that is itself a list (one placeholder, one argument: the list)
+					if t.Elem().Kind() == reflect.Interface && t.Elem().NumMethod() == 0 && r.chance(1, 12) {
+						ev.Set(reflect.ValueOf(r.pick2(any(sqlair.S{1, 2}), any(IntSlice{3, 5, 8}), any([]string{"a"}), any(Person{ID: 9}))))
+					}
 					m.SetMapIndex(kv, ev)
+				} else if len(k) > 2 && (k[0] == '"' || k[0] == '\'') {
+					// the key is missing, but its unquoted spelling is there: another key
+					u := strings.ReplaceAll(strings.ReplaceAll(k[1:len(k)-1], "''", "'"), "\"\"", "\"")
+					ev := reflect.New(t.Elem()).Elem()
+					g.f.fill(ev, 0)
+					m.SetMapIndex(reflect.ValueOf(u).Convert(t.Key()), ev)
 				}
 			}
 			v.Elem().Set(m)
@@ -516,7 +535,7 @@ func (g *bindGen) lay(s string) string {
 	if i < 0 || !g.r.chance(1, 5) {
 		return s
 	}
-	return s[:i] + g.r.pick([]string{"\n", "\t", "\r\n", " -- c\n", " /* c */ ", "\n-- $T.x 'q\n", " /* ' */"}) + s[i+1:]
+	return s[:i] + g.r.pick([]string{"\n", "\t", "\r\n", " -- c\n", " /* c */ ", "\n-- $T.x 'q\n", " /* ' */", " -- \x00 $Person.id 'q\n", " /* \x00 $M.k1 */ "}) + s[i+1:]
 }
 
 // thoroughTier: the deep tier also probes sizes around 2^14 .. 2^16.
@@ -527,6 +546,9 @@ var thoroughTier = os.Getenv("VERIF_TIER") == "thorough"
 func (g *bindGen) wideSelect() bindCase {
 	r := g.r
 	n := []int{62, 63, 64, 65, 66, 127, 128, 129, 255, 256, 257}[r.intn(11)]
+	if r.chance(1, 10) {
+		n = []int{1023, 1024, 1025, 1026}[r.intn(4)]
+	}
 	var cols []string
 	for i := 0; i < n; i++ {
 		cols = append(cols, fmt.Sprintf("c%d", i))
